@@ -70,6 +70,12 @@ type c11AttScript struct {
 	// announcement end of the next attempt): 1 in the attempt function, 2 in
 	// signalDone, 3 in waitUntilAllDone. Only scripted for iterations >= 2.
 	LateWhere int
+	// injected block-wait faults (the context is NOT cancelled): the direct
+	// wait for the announcement start, the wait that ends the announcement,
+	// the wait that ends the done check (signing) return an error
+	DirectWaitErr bool
+	AnnEndWaitErr bool
+	TimeoutWaitErr bool
 }
 
 // c11AttemptObs is what one member showed for one attempt number.
@@ -92,6 +98,22 @@ type c11AttemptObs struct {
 	// between the loop's own check and this call)
 	DecisionHeight *uint64 `json:"height_at_lateness_decision,omitempty"`
 	LateReturn     int     `json:"scripted_late_return,omitempty"`
+}
+
+// c11Fault is one injected waitForBlockFn error.
+type c11Fault struct {
+	Kind            string `json:"kind"`
+	Iter            uint   `json:"iteration"`
+	Block           uint64 `json:"block"`
+	announcesBefore int
+}
+
+// c11AnnRec is one Announce call (a number may be announced more than once by
+// a loop that retries after a fault).
+type c11AnnRec struct {
+	Att      uint    `json:"attempt"`
+	AnnStart *uint64 `json:"ann_start_wait,omitempty"`
+	AnnEnd   *uint64 `json:"ann_end_wait,omitempty"`
 }
 
 type c11Read struct {
@@ -123,6 +145,9 @@ type c11Member struct {
 	lastDirectH *uint64
 	iterOpen   bool // the current iteration was already opened by a current-block read
 	lateReturns int
+	gwInIter   int // goroutine waits registered since the last direct wait
+	faults     []c11Fault
+	annLog     []c11AnnRec
 	lastRead   *uint64
 	curAttempt uint
 	obs        map[uint]*c11AttemptObs
@@ -154,6 +179,9 @@ func (m *c11Member) script(i uint) c11AttScript {
 	s.AttemptOK = rng.Intn(6) == 0
 	s.SignalErr = rng.Intn(8) == 0
 	s.AllDoneOK = rng.Intn(3) != 0
+	s.DirectWaitErr = rng.Intn(14) == 0
+	s.AnnEndWaitErr = rng.Intn(12) == 0
+	s.TimeoutWaitErr = rng.Intn(12) == 0
 	if i >= 2 && rng.Intn(4) == 0 {
 		s.LateWhere = 1 + rng.Intn(3)
 		// give the late step a chance to be reached
@@ -215,9 +243,16 @@ func (m *c11Member) waitForBlock(ctx context.Context, b uint64) error {
 		it := m.iter
 		m.lastDirect = c11U(b)
 		m.lastDirectH = c11U(m.clk.Height())
+		m.gwInIter = 0
 		m.mu.Unlock()
 		if ctx.Err() != nil {
 			return nil
+		}
+		if m.script(it).DirectWaitErr {
+			m.mu.Lock()
+			m.faults = append(m.faults, c11Fault{"announcement-start-wait", it, b, len(m.announced)})
+			m.mu.Unlock()
+			return fmt.Errorf("scripted block wait failure")
 		}
 		if m.clk.Height() < b {
 			m.advanceTo(b + m.script(it).StartLag)
@@ -225,6 +260,23 @@ func (m *c11Member) waitForBlock(ctx context.Context, b uint64) error {
 		return nil
 	}
 	// a wait launched with `go`: it cancels a derived context at block b
+	m.mu.Lock()
+	k := m.gwInIter
+	m.gwInIter++
+	it := m.iter
+	m.mu.Unlock()
+	sc := m.script(it)
+	if ctx.Err() == nil && ((k == 0 && sc.AnnEndWaitErr) || (k == 1 && sc.TimeoutWaitErr)) {
+		kind := "announcement-end-wait"
+		if k == 1 {
+			kind = "timeout-wait"
+		}
+		m.mu.Lock()
+		m.faults = append(m.faults, c11Fault{kind, it, b, len(m.announced)})
+		m.mu.Unlock()
+		m.gwCh <- b
+		return fmt.Errorf("scripted block wait failure")
+	}
 	m.gwCh <- b
 	ch, _ := m.clk.BlockHeightWaiter(b)
 	select {
@@ -299,6 +351,7 @@ func (m *c11Member) Announce(ctx context.Context, memberIndex group.MemberIndex,
 	m.lastDirect = nil
 	o.DecisionHeight = m.lastDirectH
 	m.lastDirectH = nil
+	m.annLog = append(m.annLog, c11AnnRec{att, o.AnnStart, c11U(T)})
 	o.AnnEnd = c11U(T)
 	o.HeightAtAnn = h
 	o.LastReadBefore = m.lastRead
@@ -309,14 +362,17 @@ func (m *c11Member) Announce(ctx context.Context, memberIndex group.MemberIndex,
 		m.cancel()
 		return nil, fmt.Errorf("script over")
 	}
-	dead := h >= T || ctx.Err() != nil
+	// decided from the member's own state, not from whether a cancellation
+	// has already been noticed
+	dead := h >= T || m.stopped
+	early := sc.AnnEndWaitErr && !m.stopped // the wait behind the context failed: it ends at once
 	if !dead && sc.AnnMode == 1 {
 		m.mu.Lock()
 		m.failed++
 		m.mu.Unlock()
 		return nil, fmt.Errorf("scripted early announcement error")
 	}
-	if !dead {
+	if !dead && !early {
 		m.advanceTo(T + sc.AnnLag)
 	}
 	// the real announcer returns when its context is done
@@ -468,7 +524,9 @@ func (d *c11DoneCheck) waitUntilAllDone(ctx context.Context) (*signing.Result, u
 	sp := o.span()
 	m.mu.Unlock()
 	if sc.LateWhere == 3 {
-		if tw != nil && ctx.Err() == nil {
+		if sc.TimeoutWaitErr {
+			m.awaitDone(ctx, "done check context whose block wait failed")
+		} else if tw != nil && ctx.Err() == nil {
 			m.advanceTo(*tw)
 			m.awaitDone(ctx, fmt.Sprintf("done check context, wait target %d, height %d", *tw, m.clk.Height()))
 		}
@@ -480,7 +538,7 @@ func (d *c11DoneCheck) waitUntilAllDone(ctx context.Context) (*signing.Result, u
 	}
 	// decided from the member's height, not from whether the cancellation has
 	// already been noticed, so that the run does not depend on scheduling
-	ended := m.stopped || (tw != nil && m.clk.Height() >= *tw)
+	ended := m.stopped || (tw != nil && m.clk.Height() >= *tw) || sc.TimeoutWaitErr
 	if ended {
 		m.awaitDone(ctx, "done check context after its timeout block")
 	}
@@ -529,10 +587,11 @@ func c11One(mm map[uint64][]int) (uint64, bool) {
 func TestVerif_C11_Windows(t *testing.T) {
 	r := verifkit.Start(t, "C11", "windows")
 	defer r.Finish()
-	r.SetRule("real signingRetryLoop.start / dkgRetryLoop.start for all 3..7 members of a group, each on its own virtual chain view driven by a PRNG script per member and iteration (current-block error, late notice of a block, announce error early/late, minority, majority without self, attempt duration up to and beyond the timeout, attempt/done-check failure or success, late start by 0..1000 blocks, loop stop block, and for iterations >= 2 an attempt function / signalDone / waitUntilAllDone that comes back more than two attempt spans late); start blocks {0,1,899,1e6,2^40,random}. non-trivial = the run observed >= 1 failed/skipped attempt or a late start")
+	r.SetRule("real signingRetryLoop.start / dkgRetryLoop.start for all 3..7 members of a group, each on its own virtual chain view driven by a PRNG script per member and iteration (current-block error, late notice of a block, announce error early/late, minority, majority without self, attempt duration up to and beyond the timeout, attempt/done-check failure or success, late start by 0..1000 blocks, loop stop block, and for iterations >= 2 an attempt function / signalDone / waitUntilAllDone that comes back more than two attempt spans late; injected waitForBlockFn errors with the context alive (the announcement-start wait, the wait that ends the announcement, the wait that ends the done check; any iteration, possibly several). On the unchanged tree a failed announcement-start wait makes the signing loop move on to the next attempt and makes the DKG loop abort (so for DKG the rule only bites on code that continues), a failed goroutine wait ends the derived context at once in both loops; the counters *_wait_faults_* say how many faults were followed by further attempts); start blocks {0,1,899,1e6,2^40,random}. non-trivial = the run observed >= 1 failed/skipped attempt or a late start")
 	nCases := r.N(400, 20000)
 	var loops, attemptsSeen, skipsChecked, overlapsChecked, nonuniform, lateDkg, decisions, lateReturns int64
 	var cmu sync.Mutex
+	faultCnt := map[string]int64{}
 	verifkit.Parallel(nCases, 0, func(ci int) {
 		rng := r.SubRand("case", ci)
 		isDkg := ci%2 == 1
@@ -685,6 +744,7 @@ func TestVerif_C11_Windows(t *testing.T) {
 		}
 		wins := map[uint]*win{}
 		var localAttempts, localSkips, localOverlaps, localNonuniform, localLateDkg, localDecisions, localLateReturns int64
+		var localReused, localFaults, localFaultsContinued, localFaultsDirect, localFaultsDirectContinued int64
 		for a := uint(1); a <= maxAtt; a++ {
 			w := &win{}
 			wins[a] = w
@@ -696,8 +756,23 @@ func TestVerif_C11_Windows(t *testing.T) {
 				}
 				return c11One(mm)
 			}
-			w.annStart, w.hasAS = check("announcement-start", c11Gather(members, a, func(o *c11AttemptObs) []*uint64 { return []*uint64{o.AnnStart} }))
-			w.annEnd, w.hasAE = check("announcement-end", c11Gather(members, a, func(o *c11AttemptObs) []*uint64 { return []*uint64{o.AnnEnd} }))
+			gatherAnn := func(end bool) map[uint64][]int {
+				out := map[uint64][]int{}
+				for _, m := range members {
+					for _, x := range m.annLog {
+						v := x.AnnStart
+						if end {
+							v = x.AnnEnd
+						}
+						if x.Att == a && v != nil {
+							out[*v] = append(out[*v], m.idx)
+						}
+					}
+				}
+				return out
+			}
+			w.annStart, w.hasAS = check("announcement-start", gatherAnn(false))
+			w.annEnd, w.hasAE = check("announcement-end", gatherAnn(true))
 			w.pStart, w.hasPS = check("attempt-start", c11Gather(members, a, func(o *c11AttemptObs) []*uint64 { return []*uint64{o.ParamsStart} }))
 			w.timeout, w.hasTO = check("timeout", c11Gather(members, a, func(o *c11AttemptObs) []*uint64 {
 				return []*uint64{o.ParamsTimeout, o.ListenTimeout, o.TimeoutWait}
@@ -777,6 +852,32 @@ func TestVerif_C11_Windows(t *testing.T) {
 					}
 				}
 			}
+			// an attempt number is never reused for different blocks
+			seenAnn := map[uint]c11AnnRec{}
+			for _, x := range m.annLog {
+				if p, dup := seenAnn[x.Att]; dup {
+					localReused++
+					same := func(a, b *uint64) bool { return (a == nil) == (b == nil) && (a == nil || *a == *b) }
+					if !same(p.AnnStart, x.AnnStart) || !same(p.AnnEnd, x.AnnEnd) {
+						r.Violation(loop+":attempt-number-reused", fmt.Sprintf("member %d announced attempt %d twice with different blocks", m.idx, x.Att),
+							fmt.Sprintf("%s @attempt=%d member=%d", desc, x.Att, m.idx), map[string]interface{}{"first": p, "second": x, "faults": m.faults})
+					}
+				}
+				seenAnn[x.Att] = x
+			}
+			for _, f := range m.faults {
+				localFaults++
+				if len(m.announced) > f.announcesBefore {
+					localFaultsContinued++
+				}
+				switch f.Kind {
+				case "announcement-start-wait":
+					localFaultsDirect++
+					if len(m.announced) > f.announcesBefore {
+						localFaultsDirectContinued++
+					}
+				}
+			}
 			// attempt numbers announced by one member are strictly increasing
 			if !sort.SliceIsSorted(m.announced, func(i, j int) bool { return m.announced[i] < m.announced[j] }) {
 				r.Violation(loop+":attempt-order", fmt.Sprintf("member %d announced attempts out of order: %v", m.idx, m.announced), desc, nil)
@@ -786,6 +887,15 @@ func TestVerif_C11_Windows(t *testing.T) {
 			localLateReturns += int64(m.lateReturns)
 		}
 		cmu.Lock()
+		cnt := "sign"
+		if isDkg {
+			cnt = "dkg"
+		}
+		faultCnt[cnt+"_wait_faults_injected"] += localFaults
+		faultCnt[cnt+"_wait_faults_followed_by_further_attempts"] += localFaultsContinued
+		faultCnt[cnt+"_announcement_start_wait_faults"] += localFaultsDirect
+		faultCnt[cnt+"_announcement_start_wait_faults_followed_by_further_attempts"] += localFaultsDirectContinued
+		faultCnt["attempt_numbers_announced_twice"] += localReused
 		decisions += localDecisions
 		lateReturns += localLateReturns
 		loops += int64(n)
@@ -829,6 +939,9 @@ func TestVerif_C11_Windows(t *testing.T) {
 	r.Count("attempt_windows_compared", attemptsSeen)
 	r.Count("late_reads_checked_signing", skipsChecked)
 	r.Count("announce_decisions_checked_signing", decisions)
+	for k, v := range faultCnt {
+		r.Count(k, v)
+	}
 	r.Count("scripted_late_returns", lateReturns)
 	r.Count("late_announcements_checked_dkg", lateDkg)
 	r.Count("successive_windows_checked", overlapsChecked)
